@@ -313,6 +313,29 @@ func (i *Inst) RunOidc(s *OiScript, tw *TraceWriter, rng *rand.Rand) error {
 		return i.runConnect(s, tw, rng, store, user)
 	case "burst":
 		return i.runBurst(s, tw, rng, store)
+	case "usertokx":
+		// the running gateway (its keys come from its configuration file) is asked about user tokens made by the harness's
+		// own writer: encrypted only / signed and encrypted, with the configured keys / with another signing key
+		now := time.Now().Unix()
+		for _, f := range []struct{ kind, mode, sigKey string }{{"enc-only", "enc", "none"}, {"signed-encrypted", "signenc", "gw"}, {"signed-other-key", "signenc", "other"}} {
+			payload := forge.Claims(map[string]interface{}{"sub": "forged-user", "iss": "rdpgw", "exp": now + 300})
+			sigAlg := "none"
+			if f.mode == "signenc" {
+				key := []byte(KeyUserSign)
+				if f.sigKey == "other" {
+					key = []byte("another-signing-key-0123456789ab")
+				}
+				payload = []byte(forge.JWS("HS256", key, `{"alg":"HS256"}`, payload))
+				sigAlg = "HS256"
+			}
+			tok := forge.JWEDir([]byte(KeyUserEnc), forge.HdrJWE, payload, true)
+			h, err := i.NewBrowser("", "").Get(i.BaseURL() + "/tokeninfo?access_token=" + url.QueryEscape(tok))
+			if err != nil {
+				return err
+			}
+			tw.Line(M{"ev": "usertokx", "script": s.ID, "cls": i.Cfg.UserTok + "." + f.kind, "store": store, "vm": i.Cfg.UserTok, "status": h.Status,
+				"tok": userRec("jwe", f.mode, "gw", f.sigKey, sigAlg, "dir+A128CBC-HS256", "rdpgw", true, 300, "none")})
+		}
 	default:
 		return fmt.Errorf("unknown kind %q", s.Kind)
 	}
